@@ -628,5 +628,9 @@ func (ex *Exec) arrayDef(st *State, name string, s Sort, body string, domain str
 		inner = implies(domain, inner)
 	}
 	q := fmt.Sprintf("(forall ((qi (_ BitVec 64))) (! %s :pattern ((select %s qi))))", inner, name)
-	ex.vc.cmds = append(ex.vc.cmds, fmt.Sprintf("(assert %s) ;LAMBDA %s|%s|%s", implies(st.guard, q), name, s, body))
+	marker := ";LAMBDA"
+	if domain != "" {
+		marker = ";LAMBDAD" // defined on a sub-domain only: never turned into a total lambda
+	}
+	ex.vc.cmds = append(ex.vc.cmds, fmt.Sprintf("(assert %s) %s %s|%s|%s", implies(st.guard, q), marker, name, s, body))
 }
